@@ -37,4 +37,10 @@ def overflowPsd : B :=
   [0x38, 0x42, 0x50, 0x53, 0, 2, 0, 0, 0, 0, 0, 0, 0, 1, 0, 0, 0, 1, 0, 0, 0, 1, 0, 8, 0, 3] ++
   [0, 0, 0, 0] ++ [0, 0, 0, 0] ++ [0x80, 0, 0, 0, 0, 0, 0, 0] ++ [0, 0, 0, 0, 0, 0, 0, 0] ++ [0, 0, 0, 0]
 
+/-- a layer record without channels: rectangle, `8BIM` `norm`, opacity 255, an extra block of 12 bytes
+(empty mask, empty blending ranges, empty name) — 46 bytes -/
+def recordBytes : B :=
+  [0, 0, 0, 0, 0, 0, 0, 0, 0, 0, 0, 0, 0, 0, 0, 0] ++ [0, 0] ++ [0x38, 0x42, 0x49, 0x4d] ++ [0x6e, 0x6f, 0x72, 0x6d] ++
+  [255, 0, 0] ++ [0, 0, 0, 0, 12] ++ [0, 0, 0, 0] ++ [0, 0, 0, 0] ++ [0, 0, 0, 0]
+
 end PsdVerif.Safe
